@@ -208,6 +208,14 @@ fn close(a: f64, b: f64) -> bool {
 
 /// the text the metrics work on
 fn norm(s: &str) -> String {
+    // independent of the crate's helpers wherever cluster-wise and code-point-wise cleaning
+    // agree (no cluster mixing whitespace with other code points, before and after NFKC)
+    if model::mixed_free(s) {
+        let m = model::normalize_model(&model::clean_model(s), 2);
+        if model::mixed_free(&m) {
+            return model::clean_model(&m);
+        }
+    }
     clean(&normalize(&clean(s, true), Normalization::NFKC, true), true)
 }
 
@@ -258,7 +266,7 @@ impl Prop for C13 {
 
     fn assumptions() -> Vec<String> {
         vec![
-            "the metrics' own text normalisation (clean + NFKC, cleaned again) is taken from the crate's public clean()/normalize(); the oracles work on the normalised texts".into(),
+            "the metrics' own text normalisation (clean + NFKC, cleaned again) is computed independently (split/join, per-cluster unicode-normalization) unless a cluster mixes whitespace with other code points before or after NFKC, where the crate's public clean()/normalize() are used; the oracles work on the normalised texts".into(),
             "calibration in grapheme mode is asserted only when the normalised texts are segmentation-stable (KF3 is the recorded finding outside that domain)".into(),
             "floating point comparisons use an absolute tolerance of 1e-9 (rayon summation order is not fixed)".into(),
             "mean edit distance formulas are checked on pairs whose NFKC form does not introduce whitespace".into(),
